@@ -260,6 +260,9 @@ def behav(rng):
     top.addIn('en', en)
     top.addOut('tq', tq)
     tops.append(Toggler(top, 'tog', en, tq))
+    cq = hw.wire('cq', W)
+    top.addOut('cq', cq)
+    tops.append(_ca_chg(py4hw, top, a, cq) if rng.chance(1, 2) else _ca_peak(py4hw, top, a, cq))
     return dict(hw=hw, tops=tops, inputs={'a': a, 'en': en}, desc=dict(behav_W=W))
 
 
@@ -523,13 +526,57 @@ def _id_mask(py4hw, top, a, r):
     return Mask(top, 'stage', a, r)
 
 
+# ------------------------------------------------------------------------------------------------
+# integer attributes that clock() creates itself (NOT initialised in the constructor), read textually before they are written,
+# guarded by a flag: they do not exist on the live object before the first cycle and exist afterwards
+def _ca_chg(py4hw, top, a, r):
+    class ChangeCounter(py4hw.Logic):
+        def __init__(self, parent, name, a, r):
+            super().__init__(parent, name)
+            self.a = self.addIn('a', a)
+            self.r = self.addOut('r', r)
+            self.started = 0
+            self.count = 0
+
+        def clock(self):
+            if (self.started == 1):
+                if (self.a.get() != self.prev):
+                    self.count = self.count + 1
+            self.prev = self.a.get()
+            self.started = 1
+            self.r.prepare(self.count)
+    return ChangeCounter(top, 'stage', a, r)
+
+
+def _ca_peak(py4hw, top, a, r):
+    class Peak(py4hw.Logic):
+        def __init__(self, parent, name, a, r):
+            super().__init__(parent, name)
+            self.a = self.addIn('a', a)
+            self.r = self.addOut('r', r)
+            self.seen = 0
+
+        def clock(self):
+            if (self.seen == 1):
+                if (self.a.get() > self.best):
+                    self.best = self.a.get()
+            else:
+                self.best = self.a.get()
+                self.seen = 1
+            self.r.prepare(self.best)
+    return Peak(top, 'stage', a, r)
+
+
+CLOCKATTR = {'chg': _ca_chg, 'peak': _ca_peak}
 SAMENAME = {'up': _stage_up, 'down': _stage_down, 'up2': _stage_up2, 'acc': _stage_acc, 'xor': _stage_xor}
 # variants that must give the SAME text (identical source, different class objects): the control
 SAMENAME_EQUAL = [('up', 'up2')]
 IDENTS = {'saturate': _id_saturate, 'window': _id_window, 'hold': _id_hold, 'scale': _id_scale, 'ramp': _id_ramp, 'mask': _id_mask}
-FAMILIES = {'same-name classes': (SAMENAME, SAMENAME_EQUAL), 'shared identifier names': (IDENTS, [])}
+FAMILIES = {'same-name classes': (SAMENAME, SAMENAME_EQUAL), 'shared identifier names': (IDENTS, []),
+            'attributes created by clock()': (CLOCKATTR, [])}
 VARIANTS = dict(SAMENAME)
 VARIANTS.update(IDENTS)
+VARIANTS.update(CLOCKATTR)
 
 
 def samename(variant, W=8):
